@@ -22,7 +22,7 @@ def main():
     out = f"/verif/seeded/{name}"
     os.makedirs(out, exist_ok=True)
     for f in ("patch.diff", "demo_test.go", "notes.md"):
-        if os.path.exists(os.path.join(src, f)):
+        if os.path.exists(os.path.join(src, f)) and os.path.abspath(src) != os.path.abspath(out):
             shutil.copy(os.path.join(src, f), os.path.join(out, f))
     demo = open(os.path.join(out, "demo_test.go")).read()
     m = re.search(r"^//.*?\b([a-z/0-9]+)/?\s*(?:package|directory|dir|\(|$)", demo.splitlines()[0])
